@@ -427,4 +427,164 @@ theorem convertG_sem (fixed : Bool) (counts : List Int) (offset : Int) (k : Nat)
       rw [this]; exact total
     · exact g'.len
 
+/-! ### span well-formedness -/
+
+def SpanOK (s : Span) : Prop := 2 < s.offset ∧ 1 ≤ s.length
+
+/-- every span after the first starts after a gap of more than two buckets; all but possibly the
+    current one are non-empty (`strict`: the current one too). -/
+def Wk (strict : Bool) (st : St) : Prop :=
+  (∀ s ∈ st.done.drop 1, SpanOK s) ∧ (st.done ≠ [] → 2 < st.cur.offset ∧ (strict = true → 1 ≤ st.cur.length))
+
+theorem wk_appendDelta (st : St) (c : Int) (h : Wk false st) : Wk true (st.appendDelta c) := by
+  obtain ⟨h1, h2⟩ := h
+  refine ⟨h1, fun hd => ?_⟩
+  have := h2 hd
+  exact ⟨this.1, fun _ => by show 1 ≤ st.cur.length + 1; omega⟩
+
+theorem wk_weaken (st : St) (h : Wk true st) : Wk false st :=
+  ⟨h.1, fun hd => ⟨(h.2 hd).1, fun h => by cases h⟩⟩
+
+theorem wk_newSpan (st : St) (gap : Int) (hg : 2 < gap) (h : Wk true st) : Wk false (st.newSpan gap) := by
+  obtain ⟨h1, h2⟩ := h
+  refine ⟨?_, fun _ => ⟨hg, fun h => by cases h⟩⟩
+  intro s hs
+  show SpanOK s
+  have hs' : s ∈ (st.done ++ [st.cur]).drop 1 := hs
+  cases hd : st.done with
+  | nil => rw [hd] at hs'; simp at hs'
+  | cons d ds =>
+    rw [hd] at hs'
+    simp at hs'
+    cases hs' with
+    | inl h => exact h1 s (by rw [hd]; simpa using h)
+    | inr h =>
+      have := h2 (by rw [hd]; simp)
+      rw [h]; exact ⟨this.1, this.2 rfl⟩
+
+theorem wk_fillZeros (n : Nat) (st : St) (h : Wk true st) : Wk true (St.fillZeros n st) := by
+  induction n generalizing st with
+  | zero => exact h
+  | succ n ih => exact ih _ (wk_appendDelta st 0 (wk_weaken st h))
+
+theorem wk_flush (st : St) (gap c : Int) (h : Wk true st) : Wk true ((st.emitGap gap).appendDelta c) := by
+  apply wk_appendDelta
+  unfold St.emitGap
+  split
+  · rename_i hg; exact wk_newSpan st gap hg h
+  · exact wk_weaken _ (wk_fillZeros _ st h)
+
+theorem wk_congr (b : Bool) (st st' : St) (hd : st'.done = st.done) (hc : st'.cur = st.cur) (h : Wk b st) : Wk b st' := by
+  unfold Wk; rw [hd, hc]; exact h
+
+theorem wk_step (fixed : Bool) (offset : Int) (k i : Nat) (c : Int) (st : St) (h : Wk true st) :
+    Wk true (step fixed offset k i c st) := by
+  unfold step
+  simp only []
+  by_cases h1 : (if fixed = true then st.mergeIdx else st.bucketIdx) = nextIdx offset k i
+  · rw [if_pos h1]; exact wk_congr _ st _ rfl rfl h
+  · rw [if_neg h1]
+    by_cases h2 : st.count = 0
+    · rw [if_pos h2]; exact wk_congr _ st _ rfl rfl h
+    · rw [if_neg h2]
+      refine wk_congr _ (( ({ st with mergeIdx := nextIdx offset k i } : St).emitGap (nextIdx offset k i - st.bucketIdx - 1)).appendDelta st.count) _ rfl rfl ?_
+      exact wk_flush _ _ _ (wk_congr _ st _ rfl rfl h)
+
+theorem wk_loop (fixed : Bool) (offset : Int) (k : Nat) (cs : List Int) (i : Nat) (st : St) (h : Wk true st) :
+    Wk true (loop fixed offset k i cs st) := by
+  induction cs generalizing i st with
+  | nil => exact h
+  | cons c cs ih => exact ih _ _ (wk_step fixed offset k i c st h)
+
+theorem convertG_wf (fixed : Bool) (counts : List Int) (offset : Int) (k : Nat) (adj : Bool) :
+    ∀ s ∈ (convertG fixed counts offset k adj).1.drop 1, 2 < s.offset ∧ 1 ≤ s.length := by
+  cases counts with
+  | nil => simp [convertG]
+  | cons c0 cs0 =>
+    have h0 : Wk true (initSt offset k adj) := ⟨by simp [initSt], by simp [initSt]⟩
+    have h1 := wk_loop fixed offset k (c0 :: cs0) 0 _ h0
+    have h2 := wk_flush _ (shr (((c0 :: cs0).length : Nat) + offset - 1) k + 1
+      - (loop fixed offset k 0 (c0 :: cs0) (initSt offset k adj)).bucketIdx) 
+      (loop fixed offset k 0 (c0 :: cs0) (initSt offset k adj)).count h1
+    intro s hs
+    have hs' : s ∈ (((finish offset k (c0 :: cs0).length (loop fixed offset k 0 (c0 :: cs0) (initSt offset k adj)))).spans).drop 1 := hs
+    generalize hst : finish offset k (c0 :: cs0).length (loop fixed offset k 0 (c0 :: cs0) (initSt offset k adj)) = st at hs'
+    have h2' : Wk true st := by rw [← hst]; exact h2
+    obtain ⟨a, b⟩ := h2'
+    simp only [St.spans] at hs'
+    cases hd : st.done with
+    | nil => rw [hd] at hs'; simp at hs'
+    | cons d ds =>
+      rw [hd] at hs'
+      simp at hs'
+      cases hs' with
+      | inl h => exact a s (by rw [hd]; simpa using h)
+      | inr h =>
+        have := b (by rw [hd]; simp)
+        rw [h]; exact ⟨this.1, this.2 rfl⟩
+
+
+/-! ### custom buckets -/
+
+theorem refSum_shift (P : Nat → Bool) (a i0 : Nat) (cs : List Int) :
+    refSum (fun i => P (i + a)) i0 cs = refSum P (i0 + a) cs := by
+  induction cs generalizing i0 with
+  | nil => simp [refSum]
+  | cons c cs ih =>
+    simp only [refSum, ih]
+    have : i0 + 1 + a = i0 + a + 1 := by omega
+    rw [this]
+
+theorem refSum_point (j i0 : Nat) (cs : List Int) :
+    refSum (fun i => decide (i = j)) i0 cs = if i0 ≤ j then cs.getD (j - i0) 0 else 0 := by
+  induction cs generalizing i0 with
+  | nil => simp [refSum]
+  | cons c cs ih =>
+    simp only [refSum, ih]
+    by_cases h1 : i0 = j
+    · subst h1
+      have h3 : ¬ i0 + 1 ≤ i0 := by omega
+      simp [h3]
+    · by_cases h2 : i0 < j
+      · have e : j - i0 = (j - (i0 + 1)) + 1 := by omega
+        have h3 : i0 + 1 ≤ j := h2
+        have h4 : i0 ≤ j := by omega
+        rw [e]; simp [h1, h3, h4]
+      · have h3 : ¬ i0 + 1 ≤ j := by omega
+        have h4 : ¬ i0 ≤ j := by omega
+        simp [h1, h3, h4]
+
+theorem getD_lt_bucketOffset (cs : List Int) (j : Nat) (h : j < bucketOffset cs) : cs.getD j 0 = 0 := by
+  induction cs generalizing j with
+  | nil => simp
+  | cons c cs ih =>
+    simp only [bucketOffset] at h
+    split at h
+    · rename_i hc
+      cases j with
+      | zero => simpa using hc
+      | succ j => simp; have := ih j (by omega); simpa using this
+    · omega
+
+theorem getD_drop (cs : List Int) (a j : Nat) : (cs.drop a).getD j 0 = cs.getD (a + j) 0 := by
+  simp [List.getD_eq_getElem?_getD]
+
+/-- de-sparsified custom-bucket layout: bucket `j` holds `counts[j]`. -/
+theorem custom_bucket_eq (fixed : Bool) (cs : List Int) (j : Nat) :
+    bucket (convertG fixed (cs.drop (bucketOffset cs)) (bucketOffset cs) 0 false) j = cs.getD j 0 := by
+  have h := (convertG_sem fixed (cs.drop (bucketOffset cs)) (bucketOffset cs) 0 false (Or.inr rfl)).1 j
+  rw [h]
+  have e : (fun i : Nat => decide (nextIdx (bucketOffset cs) 0 i - shiftOf (bucketOffset cs) 0 false = (j : Int)))
+      = (fun i : Nat => (fun i' : Nat => decide (i' = j)) (i + bucketOffset cs)) := by
+    funext i
+    apply decide_eq_decide.mpr
+    simp only [nextIdx, shiftOf, shr_zero, Bool.false_eq_true, if_false]
+    constructor <;> intro h <;> omega
+  rw [e, refSum_shift (fun i' : Nat => decide (i' = j)) (bucketOffset cs) 0, refSum_point]
+  by_cases hj : bucketOffset cs ≤ j
+  · simp only [Nat.zero_add, hj, if_true, getD_drop]
+    congr 1; omega
+  · simp only [Nat.zero_add, hj, if_false]
+    exact (getD_lt_bucketOffset cs j (by omega)).symm
+
 end Prom.Otlp
